@@ -116,12 +116,25 @@ def twin_row(kw):
 
 # ---- start states ----------------------------------------------------------------------------------
 CTORS = ["items4", "items2", "single", "df", "list", "nil", "from_dict_rows", "from_dict_cols", "from_dict_min", "empty0", "empty1", "empty3"]
+# size: lists beyond the small-array fast paths of the sorting and indexing machinery (thorough: 1500 rows)
+BIG = {"items40": 40, "items1500": 1500, "sorted40": 40, "sorted1500": 1500}
+
+
+def big_offsets(n):
+    """Deterministic, unsorted, with duplicates, negative and fractional values, all exactly representable."""
+    return [((i * 37) % 101) * 0.25 - 5.0 for i in range(n)]
 
 
 def construct(cls, ctor):
     """Returns (live list, twin rows, default_filled) or raises the library's exception."""
     ic = cls._item_class()
     props = ic._props
+    if ctor in BIG:
+        offs = big_offsets(BIG[ctor])
+        if ctor.startswith("sorted"):
+            offs = sorted(offs)  # built in time order: the state a chart read from a file is in
+        kws = [mk_kwargs(cls, o, i) for i, o in enumerate(offs)]
+        return cls([ic(**copy.deepcopy(k)) for k in kws]), [twin_row(k) for k in kws]
     kws = [mk_kwargs(cls, o, i) for i, o in enumerate(OFFS)]
     if ctor == "items4":
         return cls([ic(**copy.deepcopy(k)) for k in kws]), [twin_row(k) for k in kws]
@@ -353,8 +366,14 @@ def observe(cls, name, l, tw, hist, ctx):
     # column getters
     for p in props:
         guarded("observe.column_getter", lambda p=p: [val(x) for x in getattr(l, p).tolist()], [r[p] for r in tw], dict(prop=p))
-    # positional indexing, positive and negative
-    for i in range(-n, n):
+    # positional indexing, positive and negative (every index for lists up to 64 rows; for longer ones the ends, the
+    # neighbourhoods of 256 / 1024 and every 97th index - the rows themselves are all compared above)
+    if n <= 64:
+        idxs = range(-n, n)
+    else:
+        pos = set(range(0, 20)) | set(range(n - 20, n)) | set(range(0, n, 97)) | {i for c in (256, 1024) for i in range(c - 2, c + 3) if i < n}
+        idxs = sorted(pos | {i - n for i in pos})
+    for i in idxs:
         def get(i=i):
             it = l[i]
             d = item_vals(it, props)
@@ -371,8 +390,11 @@ def observe(cls, name, l, tw, hist, ctx):
             ctx.check("observe.getitem_oob", False, site=site0, case=case, observed="no error", expected="IndexError")
         except Exception:
             ctx.passed("observe.getitem_oob")
-    # iteration
-    guarded("observe.iter", lambda: [item_vals(it, props) for it in l], tw)
+    # iteration (long lists: the first 64 items and the number of items)
+    if n <= 64:
+        guarded("observe.iter", lambda: [item_vals(it, props) for it in l], tw)
+    else:
+        guarded("observe.iter", lambda: [item_vals(it, props) for it in itertools.islice(iter(l), 64)], tw[:64])
     # first / last
     if n:
         fo = min(r["offset"] for r in tw)
@@ -395,7 +417,8 @@ def roots(tier, seed):
     for name, cls in list_classes().items():
         if not usable(cls):
             continue
-        for ctor in CTORS:
+        big = tier == "thorough" or name.rsplit(".", 1)[-1] in ("OsuHitList", "SMHoldList", "QuaBpmList", "BMSHitList")
+        for ctor in CTORS + ["items40", "sorted40"] + (["items1500", "sorted1500"] if big else []):
             out.append(dict(cls=name, ctor=ctor))
     return out
 
@@ -514,6 +537,8 @@ def explore(root, tier, ctx):
     # thorough depth 3 is only affordable from the richest start state; the others stay at depth 2
     if tier == "thorough" and ctor not in ("items4", "empty3", "from_dict_rows"):
         depth = 2
+    if ctor in BIG:
+        depth = 1
     frontier = [(l0, tw0, [ctor])]
     seen = set()
     k0 = core.h64(canon_list(l0))
